@@ -18,7 +18,7 @@ namespace NiftyVerif.Expr
 
 section defs
 variable {K : Type} [Zero K] [Add K] [Sub K] [Mul K] [Div K] [Neg K] [OfScientific K]
-  [LT K] [DecidableLT K] [LE K] [DecidableLE K] [Transc K]
+  [LT K] [DecidableLT K] [LE K] [DecidableLE K] [Transc K] [Conj K]
 
 def allConst (ck : List String) (d : Dom) : Bool := d.all (fun kn => ck.contains kn.1)
 def noneConst (ck : List String) (d : Dom) : Bool := d.all (fun kn => !ck.contains kn.1)
@@ -31,6 +31,7 @@ def zeroC (ck : List String) (h : MVal K) : MVal K := fun k i => if ck.contains 
 /-- is the real operator a (likelihood) `EnergyOperator` instance (decides Constant*Energy*Operator) -/
 def Ex.isLH : Ex K → Bool
   | .gauss _ _ _ => true
+  | .varcov _ _ _ => true
   | .scale _ a => a.isLH
   | .add a b => a.isLH && b.isLH
   | .chain f _ => f.isLH
@@ -64,6 +65,77 @@ def pe (ck : List String) (cs : MVal K) : Ex K → Ex K
   | .quad d a => collapse ck cs (.quad d a) (.quad d (pe ck cs a))
   | .gauss data icov a => collapse ck cs (.gauss data icov a) (.gauss data icov (pe ck cs a))
   | .const en d v => .const en d v
+  | .bil m na nb T a b => collapse ck cs (.bil m na nb T a b) (.bil m na nb T (pe ck cs a) (pe ck cs b))
+  | .varcov n a b => collapse ck cs (.varcov n a b) (.varcov n (pe ck cs a) (pe ck cs b))
+
+/-! ### the constant part of the output (`c_out`, `ConstCollector`) -/
+
+/-- a constant multi-field: keys with their entries -/
+abbrev CField (K : Type) := List (String × (Nat → K))
+
+def CField.get (f : CField K) (k : String) : Nat → K :=
+  match f.find? (·.1 == k) with
+  | some kv => kv.2
+  | none => fun _ => 0
+
+/-- `ConstCollector`: the accumulated constant field and the keys known to be non-constant -/
+structure CC (K : Type) where
+  const : Option (CField K)
+  nc : List String
+
+def CC.empty : CC K := ⟨none, []⟩
+
+/-- `ConstCollector.mult(const, fulldom)` -/
+def CC.mult (cc : CC K) (c : Option (CField K)) (tgt : List String) : CC K :=
+  match c with
+  | none => ⟨cc.const, cc.nc ++ tgt⟩
+  | some f =>
+    let nc := cc.nc ++ tgt.filter (fun k => !(f.any (·.1 == k)))
+    let keep := f.filter (fun kv => !nc.contains kv.1)
+    match cc.const with
+    | none => ⟨some keep, nc⟩
+    | some g => ⟨some (keep.map (fun kv => (kv.1, fun i => g.get kv.1 i * kv.2 i))), nc⟩
+
+/-- `ConstCollector.add(const, fulldom)` AS CODED: `self._const = const if self._const is None else self._const.unite(const)`
+    is immediately overwritten by `MultiField.from_dict({key: const[key] …})` — the accumulated field is lost
+    (DESIGN.md §6 #10).  `cout_none` below shows the branch is unreachable: no operator produces a constant output. -/
+def CC.add (cc : CC K) (c : Option (CField K)) (tgt : List String) : CC K :=
+  match c with
+  | none => ⟨cc.const, cc.nc ++ tgt⟩
+  | some f =>
+    let nc := cc.nc ++ tgt.filter (fun k => !(f.any (·.1 == k)))
+    ⟨some (f.filter (fun kv => !nc.contains kv.1)), nc⟩
+
+def Dom.keys (d : Dom) : List String := d.map (·.1)
+def Dom.isMulti (d : Dom) : Bool := !(d.all (fun kn => kn.1 == ""))
+
+/-- the constant output part returned next to the simplified operator.  Generic rule: `None` in every branch
+    (unchanged / collapsed to a constant / fallback); `_OpSum`, `SumOperator`: `ConstCollector.add` over the operands for
+    multi-domain targets; `_OpProd`: `ConstCollector.mult`; chains hand the inner result on. -/
+def cout (ck : List String) (cs : MVal K) : Ex K → Option (CField K)
+  | .var _ _ => none
+  | .const _ _ _ => none
+  | .add a b => if (Ex.add a b).dom.isMulti then
+      ((CC.empty.add (cout ck cs a) a.dom.keys).add (cout ck cs b) b.dom.keys).const else none
+  | .sub a b => if (Ex.sub a b).dom.isMulti then
+      ((CC.empty.add (cout ck cs a) a.dom.keys).add (cout ck cs b) b.dom.keys).const else none
+  | .mul a b => if (Ex.mul a b).dom.isMulti then
+      ((CC.empty.mult (cout ck cs a) a.dom.keys).mult (cout ck cs b) b.dom.keys).const else none
+  | .scale _ a => cout ck cs a
+  | .addc _ _ a => cout ck cs a
+  | .mulc _ a => cout ck cs a
+  | .ptw _ _ a => cout ck cs a
+  | .lin _ _ _ a => cout ck cs a
+  | .sum a => cout ck cs a
+  | .vdot a b => ((CC.empty.mult (cout ck cs a) a.dom.keys).mult (cout ck cs b) b.dom.keys).const
+  | .getKey _ a => cout ck cs a
+  | .putKey _ a => cout ck cs a
+  | .chain _ g => cout ck cs g
+  | .sqnorm a => cout ck cs a
+  | .quad _ a => cout ck cs a
+  | .gauss _ _ a => cout ck cs a
+  | .bil _ _ _ _ a b => ((CC.empty.mult (cout ck cs a) a.dom.keys).mult (cout ck cs b) b.dom.keys).const
+  | .varcov _ a b => ((CC.empty.add (cout ck cs a) a.dom.keys).add (cout ck cs b) b.dom.keys).const
 
 /-- `op(Linearization.make_partial_var(ρ, ck, wm))`: `Operator.__call__` prepends the block-diagonal 0/1 Jacobian -/
 def linPartial (e : Ex K) (ρ : MVal K) (ck : List String) (wm : Bool) : Lz K :=
